@@ -49,11 +49,15 @@ class VmIo:
         for field in string.Formatter().parse(format_str):
             name = field[1]
             if name is not None and len(name) > 0 and not name.isdecimal():
-                reg = Register.from_string(name)
-                if reg is not None:
-                    named[name] = self._reg.get_by_enum(reg)
-                else:
-                    named[name] = self._call_stack.get_variable(name)
+                # A variable of that name comes first: names are
+                # case-sensitive, and a variable may be called "Hue" or
+                # "result" without being a register.
+                value = self._call_stack.get_variable(name)
+                if value is None:
+                    reg = Register.from_string(name)
+                    if reg is not None:
+                        value = self._reg.get_by_enum(reg)
+                named[name] = value
         # Take only as many values as the compiler supplied for this format
         # string, leaving those of an enclosing printf in place.
         num_unnamed = sum(
